@@ -82,9 +82,16 @@ def run_history(ctx, rng, idx):
     a, arrs_a = build(M)
     b, arrs_b = build(N)
     arrays = arrs_a + arrs_b
+    readonly = rng.random() < 0.5
+    if readonly:
+        # the caller's arrays are write-protected: an operation that tries to write into one of them is stopped by numpy
+        # ("assignment destination is read-only") even if the bytes written would be the same
+        for x in arrays:
+            x.setflags(write=False)
     ops = [rng.choice(OPS) for _ in range(rng.randint(2, 8))]
     canon = {"source": json.loads(json.dumps({k: v for k, v in M.items() if k != "_orph"}, default=str)),
-             "reference": json.loads(json.dumps({k: v for k, v in N.items() if k != "_orph"}, default=str)), "ops": ops, "kind": kind}
+             "reference": json.loads(json.dumps({k: v for k, v in N.items() if k != "_orph"}, default=str)), "ops": ops, "kind": kind,
+             "inputs_write_protected": readonly}
     work = os.path.join(str(ctx.workdir), f"h{idx}")
     os.makedirs(work)
     comparator = MeshFieldsComparator(a, b)
@@ -223,6 +230,9 @@ def run_history(ctx, rng, idx):
                     ragged = any(len({len(r) for r in rows}) > 1 for X in (M, N) for _, rows in X["blocks"])
                     if op in ("to_meshio", "from_meshio_roundtrip") and ragged:
                         ctx.count("meshio conversion refused polygons with differing corner counts (meshio limitation)")
+                    elif "read-only" in str(e):
+                        ctx.violation("E4", f"operation '{op}' tries to write into an array of the data sets it was given "
+                                            f"(the arrays were write-protected: {e})", canon, executed=executed + [op])
                     elif "uniquely sort duplicate" not in str(e):
                         ctx.violation("E4", f"operation {op} raised {type(e).__name__}: {e}", canon, executed=executed + [op])
             executed.append(op)
